@@ -129,13 +129,13 @@ def gen_configs(tier, seed):
 def random_configs(tier, seed):
     q = tier == "quick"
     runs = 30 if q else 120
-    base = [dict(n=3, cap=2, nfixed=2, neph=2, tick=2, gmin=0, gmax=5, v6=0),
+    base = [dict(n=3, cap=2, nfixed=2, neph=2, tick=2, gmin=1, gmax=5, v6=0),
             dict(n=2, cap=1, nfixed=1, neph=2, tick=1, gmin=1, gmax=3, v6=1),
-            dict(n=4, cap=3, nfixed=2, neph=1, tick=3, gmin=0, gmax=7, v6=0)]
+            dict(n=4, cap=3, nfixed=2, neph=1, tick=3, gmin=1, gmax=7, v6=0)]
     if not q:
         base += [dict(n=3, cap=1, nfixed=2, neph=2, tick=2, gmin=2, gmax=2, v6=1),
-                 dict(n=4, cap=2, nfixed=1, neph=2, tick=1, gmin=0, gmax=9, v6=1),
-                 dict(n=2, cap=5, nfixed=2, neph=2, tick=5, gmin=0, gmax=12, v6=0)]
+                 dict(n=4, cap=2, nfixed=1, neph=2, tick=1, gmin=1, gmax=9, v6=1),
+                 dict(n=2, cap=5, nfixed=2, neph=2, tick=5, gmin=1, gmax=12, v6=0)]
     return [dict(c, runs=runs, steps=24, seed=seed * 131 + i) for i, c in enumerate(base)]
 
 
@@ -179,6 +179,17 @@ def extract_replays(stdout):
     return res
 
 
+def run_index(path, event_index):
+    """Index of the run (separated by `reset`) that contains the given 1-based event index."""
+    k = -1
+    for i, line in enumerate(open(path), start=1):
+        if '"ev":"reset"' in line:
+            k += 1
+        if event_index is not None and i >= event_index:
+            break
+    return max(k, 0)
+
+
 def geometry(consts):
     return dict(n=consts["N"], cap=consts["Cap"], nfixed=len(consts["FixedPorts"]),
                 neph=consts["EphHi"] - consts["EphLo"] + 1)
@@ -199,8 +210,12 @@ def run(pid, tier, seed, replay=None):
         "whole-millisecond ticks and latencies; hosts registered before the first step and running throughout "
         "(crash / bounce belong to C04); no partitions or random link failure (C03); ports, groups, payload "
         "lengths are small integers mapped to real ports 9001.., 49152.., groups 239.1.1.g / ff08::g",
-        "the instant a copy reaches a host is observed through turmoil's own `Delivered` event (emitted by "
-        "Host::receive_from_network in the default build); in replays it is caused by SentRef::deliver + Sim::step",
+        "verdict-level observations come from the public API only: socket call results, turmoil::elapsed(), "
+        "Sim::elapsed() and Sim::links snapshots between steps. A copy on a link has reached its host in the step "
+        "after which it left Sim::links, before that host runs (latencies >= 1 ms so that it is seen at least once); "
+        "a copy for the sender's own host is handed over one tick after the send; hand-overs that cannot be ordered "
+        "against calls on the same socket are optional (`amb`). turmoil's tracing events (`Send`, `Delivered`) feed "
+        "the fidelity trace only: renaming them costs drift, never a verdict",
         "spec->code replays hold every link and hand copies over one at a time (any order TLC chose); sampled "
         "latencies, random host order, blocked receivers and IPv6 are covered by the recorded-trace direction",
         "TLC results hold for the stated small constants; larger parameters are sampled only",
@@ -252,9 +267,22 @@ def run(pid, tier, seed, replay=None):
         # IPv4 always; the configurations without broadcast are replayed under IPv6 as well
         for v6 in ([0, 1] if "bcast" not in consts["DstKinds"] else [0]):
             spath = os.path.join(w, f"{name}.v{6 if v6 else 4}.summary.json")
-            out = vlib.run_driver("msgudp", ["replay", f"in={bpath}", f"out={spath}", f"traces={w}", f"v6={v6}"] +
-                                  [f"{k}={v}" for k, v in geo.items()])
+            # every `step`-th behaviour is also run to the end (everything handed over, sockets drained) and
+            # its complete trace is judged by the PropSpec, divergent or not
+            step = max(1, len(behs) // (150 if tier == "quick" else 600)) if not v6 else 0
+            out = vlib.run_driver("msgudp", ["replay", f"in={bpath}", f"out={spath}", f"traces={w}", f"v6={v6}",
+                                             f"force={step}"] + [f"{k}={v}" for k, v in geo.items()])
             s = json.load(open(spath))
+            fpath = os.path.join(w, "forced.ndjson")
+            if step and os.path.exists(fpath) and count_lines(fpath) > 0:
+                pr, _ = validate_trace(fpath, geo["n"], geo["cap"], geo["nfixed"], geo["neph"], f"{pid}_full", impl=False)
+                ck.add_tlc(pr, f"trace_full_{name}_v{6 if v6 else 4}")
+                if rejected(pr):
+                    k = run_index(fpath, pr.unmatched[0] if pr.unmatched else None)
+                    ck.violation({"kind": "behaviour", "property": pid, "config": name, "consts": jsonable(consts),
+                                  "v6": v6, "behaviour": json.loads(behs[min(k * step, len(behs) - 1)]),
+                                  "divergence": {"what": "complete trace rejected by the PropSpec"},
+                                  "violated_clause": pr.violated, "unmatched": pr.unmatched})
             log(f"[{pid}] {name}: {len(behs)} TLC behaviours ({'simulated ' + sim if sim else 'exhaustive'}), "
                 f"IPv{6 if v6 else 4}: {out.strip()}")
             ck.traces += s["behaviours"]
@@ -380,12 +408,17 @@ def do_replay(ck, path):
         open(bpath, "w").write(json.dumps(rp["behaviour"]) + "\n")
         spath = os.path.join(w, "summary.json")
         geo = geometry(consts)
-        vlib.run_driver("msgudp", ["replay", f"in={bpath}", f"out={spath}", f"traces={w}", f"v6={rp.get('v6', 0)}"] +
-                        [f"{k}={v}" for k, v in geo.items()])
+        vlib.run_driver("msgudp", ["replay", f"in={bpath}", f"out={spath}", f"traces={w}", f"v6={rp.get('v6', 0)}",
+                                    "force=1"] + [f"{k}={v}" for k, v in geo.items()])
         s = json.load(open(spath))
         ck.traces = ck.evaluations = 1
-        if not s["divergences"]:
-            log(f"[{pid}] replay: behaviour now matches the ImplSpec prediction")
+        pr, _ = validate_trace(os.path.join(w, "forced.ndjson"), geo["n"], geo["cap"], geo["nfixed"], geo["neph"],
+                               f"{pid}_replay_full", impl=False)
+        if rejected(pr):
+            ck.violation(dict(rp, violated_clause=pr.violated, unmatched=pr.unmatched))
+            s["divergences"] = []
+        elif not s["divergences"]:
+            log(f"[{pid}] replay: behaviour now matches the ImplSpec prediction; complete trace accepted by the PropSpec")
         for d in s["divergences"]:
             judge_divergence(ck, rp.get("config", "replay"), consts, d)
     else:
